@@ -165,8 +165,20 @@ def _mutation_lines(tree: ast.Module) -> Set[int]:
     return lines
 
 
+_SCANS: Dict[str, Dict[str, List[int]]] = {}
+
+
 def scan(root: str) -> Dict[str, List[int]]:
-    """{absolute file name: [line numbers inside lazy-init bodies]}"""
+    """{absolute file name: [line numbers inside lazy-init bodies]} -- memoised per root: the
+    coordinator scans once (reach map) and every forked child inherits the result instead of
+    re-parsing the package (0.35 s per simulated child, more than the simulation itself)."""
+    got = _SCANS.get(root)
+    if got is None:
+        got = _SCANS[root] = _scan(root)
+    return got
+
+
+def _scan(root: str) -> Dict[str, List[int]]:
     sites: Dict[str, List[int]] = {}
     for base, dirs, files in os.walk(root):
         dirs.sort()
